@@ -138,6 +138,14 @@ def gen_list(t, flavour=None, min_lines=3, max_lines=40):
         # a list of some hundred to a few thousand lines over a vocabulary of 40-300 passwords with a skewed
         # (Zipf-like) repetition: many distinct terminals, wide tie groups of once-seen values, characters outside a small
         # OMEN alphabet, counts far above the multi-word threshold
+        if t.chance(1, 2):
+            # realistic vocabulary: derivations sampled from a shipped ruleset's own grammar
+            from . import bigworld
+            names = bigworld.available()
+            if names:
+                for pw in bigworld.realistic_passwords(t, t.between(60, 400), names[t.draw(len(names))]):
+                    if representable(pw, enc) and pw == pw.strip("\r\n"):
+                        pool.append(pw)
         for _ in range(t.between(40, 300)):
             pw = gen_password(t, flavour)
             if pw and len(pw) <= (23 if flavour.get("long") else 20) and representable(pw, enc):
